@@ -23,7 +23,7 @@ for d in sorted(glob.glob(os.path.join(V, "seeded", pat))):
         subprocess.run(f"git -C /repo archive HEAD | tar -x -C {S}", shell=True, check=True)
         a = subprocess.run(f"cd {S} && git init -q . && git apply --whitespace=nowarn {diff}", shell=True, capture_output=True, text=True)
         if a.returncode:
-            rows.append((os.path.basename(d), "PATCH-DOES-NOT-APPLY", 0, "")); missed += 1; continue
+            rows.append((os.path.basename(d), "PATCH-DOES-NOT-APPLY", 0, "")); missed += 1; print(*rows[-1], flush=True); continue
         t0 = time.time()
         env = dict(os.environ, VERIF_REPO=S, VERIF_EVIDENCE_DIR=os.path.join(S, "ev"))
         oks, o = [], []
